@@ -516,6 +516,7 @@ int mmd_alloc_tables(struct module_data *m, int i, struct SynthInstr *synth)
 
     err1:
 	free(me->vol_table[i]);
+	me->vol_table[i] = NULL;
     err:
 	return -1;
 }
